@@ -173,6 +173,16 @@ func checkLabelProg(pid string, p *Prog) Verdict {
 	fail := func(kind, cls string, f string, a ...any) Verdict {
 		v.Fail = fmt.Sprintf(f, a...) + "\n--- source ---\n" + src + fmt.Sprintf("--- output ---\n% x", out)
 		v.Sig = fmt.Sprintf("%s|%s|mode=%d|after=%s%s", pid, kind, mode, cls, farBranch)
+		// single-statement sweep programs name their statement, so that a recorded finding can be told apart
+		var only []string
+		for _, it := range p.Items {
+			if it.Kind == ItStmt && it.RefAs == "" {
+				only = append(only, it.Text)
+			}
+		}
+		if len(only) == 1 {
+			v.Sig += "|sweep=" + strings.Fields(only[0])[0]
+		}
 		return v
 	}
 	for _, it := range p.Items {
